@@ -79,13 +79,20 @@ func scenC04(e *Env) func() {
 		// MaxResponseBodySize when set, 8 KiB otherwise
 		p.MaxBody = Pick(e, 100, 100, 0)
 		first := c04Call{ID: "e-0", Method: Pick(e, "GET", "POST"), API: "do", Stream: true, ReadBytes: Pick(e, 0, 1, 5, 50), Release: Pick(e, "close", "release", "reset"),
-			Act: srvAction{Status: 200, BodyLen: Pick(e, 400, 1000, 3000), Framing: "cl", TailLen: Pick(e, 80, 100, 120), TailMs: Pick(e, 100, 500), FakeTail: true}}
+			Act: srvAction{Status: 200, BodyLen: Pick(e, 400, 1000, 3000), Framing: Pick(e, "cl", "cl", "chunked"), TailLen: Pick(e, 80, 100, 120), TailMs: Pick(e, 100, 500), FakeTail: true}}
 		if p.MaxBody == 0 {
 			first.Act.BodyLen = Pick(e, 9000, 12000)
 		}
 		second := c04Call{ID: "e-1", Method: Pick(e, "GET", "POST"), API: Pick(e, "do", "timeout"), TimeoutMs: 5000, GapMs: Pick(e, 700, 2000),
 			Act: srvAction{Status: 200, BodyLen: 20, Framing: "cl"}}
 		p.Callers = [][]c04Call{{first, second}}
+		if first.Act.Framing == "chunked" && e.Chance(70) {
+			// a chunked streamed response read to its end comes first: whatever object
+			// tracked that stream is recycled for the one that is closed early
+			zero := c04Call{ID: "e-z", Method: "GET", API: "do", Stream: true, ReadBytes: -1, Release: Pick(e, "close", "release"),
+				Act: srvAction{Status: 200, BodyLen: first.Act.BodyLen, Framing: "chunked"}}
+			p.Callers = [][]c04Call{{zero, first, second}}
+		}
 	}
 	e.Sample = p
 	e.Cfg.Holds, e.Cfg.HoldMax = Pick(e, 0, 0, 2), 100*time.Millisecond
